@@ -1,6 +1,17 @@
-(* Model/StorageConc.v : Put of storage/pebble/storage.go as small steps, one per shared access, for the
-   concurrent clause of C05.  Scope: the part of Put below capacity (radius check, counter add, batch commit);
-   the interleaving of two prune() passes over one iterator snapshot is NOT modelled here.
+(* Model/StorageConc.v : Put of storage/pebble/storage.go as small steps, one per shared access, run by N goroutines
+   under an arbitrary scheduler - for the concurrent clause of C05.
+   One Put is the sequence
+     MCheck      inRadius: load the radius, compare
+     MAdd        c.size.Add(len(contentId)+len(content))
+     MCommit     batch {size record, item} committed; newSize > capacity ?
+     MPruneScan  prune(): NewIter (a snapshot of the database), the deletion loop, radius store
+     MPruneLoad  size := c.size.Load()
+     MPruneStore c.size.Store(size - freed) and the synced batch {deletes, size record}  (one step)
+     MDone       the call returns
+   `micro` performs one of them on the shared store.  The machine `cstep locked` lets any goroutine take its next
+   step; with `locked = true` a Put starts by acquiring the mutex (blocked while another goroutine holds it) and
+   releases it when it returns (c.putLock.Lock(); defer c.putLock.Unlock() of fix C05-put-mutex); with
+   `locked = false` it is the code before the fix.  `log` is a ghost: the order in which Puts started.
    No proofs in this file. *)
 From Shisui Require Import Base.Bytes Model.Storage.
 
@@ -9,34 +20,59 @@ Section Conc.
   Variable vlen : V -> N.
   Variable dec : bytes -> N.
 
-  (* program counter of one goroutine inside Put:
-     T0 -- inRadius (radius load) --> T1 -- c.size.Add --> T2 newSize -- batch.Commit --> TDone *)
-  Inductive tpc : Type := T0 | T1 | T2 (n : N) | TDone | TRefused.
-  Record thread : Type := { t_id : bytes; t_val : V; t_pc : tpc }.
-  Record cstate : Type := { cdb : db (V:=V); ccnt : N; crad : N; cnode : bytes; threads : list thread }.
+  Inductive mpc : Type :=
+  | MCheck
+  | MAdd (k : bytes)
+  | MCommit (k : bytes) (n : N)
+  | MPruneScan
+  | MPruneLoad (ds : list bytes) (freed : N)
+  | MPruneStore (ds : list bytes) (freed : N) (size : N)
+  | MDone (r : pres).
 
-  Definition set_pc (t : thread) (p : tpc) : thread := {| t_id := t_id t; t_val := t_val t; t_pc := p |}.
+  Definition set_cnt (s : st (V:=V)) (c : N) : st := with_db s (sdb s) c (rad s).
+  Definition set_rad (s : st (V:=V)) (r : N) : st := with_db s (sdb s) (cnt s) r.
+  Definition set_sdb (s : st (V:=V)) (d : db (V:=V)) : st := with_db s d (cnt s) (rad s).
 
-  (* one step of one goroutine on the shared state *)
-  Definition tstep (c : cstate) (t : thread) : cstate * thread :=
-    match t_pc t with
-    | T0 =>
-        match xor_key (t_id t) (cnode c) with
-        | Ok k => if dec k <? crad c then (c, set_pc t T1) else (c, set_pc t TRefused)
-        | _ => (c, set_pc t TRefused)
+  (* one shared access of the Put of (id, v) *)
+  Definition micro (s : st (V:=V)) (id : bytes) (v : V) (pc : mpc) : st * mpc :=
+    match pc with
+    | MCheck =>
+        match xor_key id (node s) with
+        | Ok k => if dec k <? rad s then (s, MAdd k) else (s, MDone Refused)
+        | _ => (s, MDone Refused)            (* unreachable for a 32-byte node id *)
         end
-    | T1 =>
-        let n := ccnt c + nlen (t_id t) + vlen (t_val t) in
-        ({| cdb := cdb c; ccnt := n; crad := crad c; cnode := cnode c; threads := threads c |}, set_pc t (T2 n))
-    | T2 n =>
-        match xor_key (t_id t) (cnode c) with
-        | Ok k =>
-            ({| cdb := apply_batch (cdb c) [BSetSize n; BSetItem k (t_val t)]; ccnt := ccnt c; crad := crad c;
-                cnode := cnode c; threads := threads c |}, set_pc t TDone)
-        | _ => (c, t)
-        end
-    | _ => (c, t)
+    | MAdd k =>
+        let n := cnt s + nlen id + vlen v in
+        (set_cnt s n, MCommit k n)
+    | MCommit k n =>
+        let s1 := set_sdb s (apply_batch (sdb s) [BSetSize n; BSetItem k v]) in
+        (s1, if cap s <? n then MPruneScan else MDone Stored)
+    | MPruneScan =>
+        let '(ds, freed, stop) := drop_far vlen (expect s) 0 (rev (kv (sdb s))) in
+        (set_rad s (match stop with Some k => dec k | None => rad s end), MPruneLoad ds freed)
+    | MPruneLoad ds freed => (s, MPruneStore ds freed (cnt s))
+    | MPruneStore ds freed size =>
+        if size <? freed then (s, MDone PruneErr)
+        else
+          let n := size - freed in
+          (with_db s (apply_batch (sdb s) (map BDel ds ++ [BSetSize n])) n (rad s), MDone Stored)
+    | MDone r => (s, MDone r)
     end.
+
+  Fixpoint micro_iter (k : nat) (s : st (V:=V)) (id : bytes) (v : V) (pc : mpc) : st * mpc :=
+    match k with
+    | O => (s, pc)
+    | S j => let '(s', pc') := micro s id v pc in micro_iter j s' id v pc'
+    end.
+
+  (* a goroutine: the Puts it still has to issue, and the Put it is inside of *)
+  Record thread : Type := { todo : list (bytes * V); cur : option (bytes * V * mpc) }.
+  Record cstate : Type := {
+    sh : st (V:=V);                 (* the shared store *)
+    lock : option nat;              (* c.putLock: the goroutine holding it *)
+    thrs : list thread;
+    log : list (bytes * V)          (* ghost: the Puts in the order they started (= lock acquisition order) *)
+  }.
 
   Fixpoint replace_nth {A} (l : list A) (i : nat) (x : A) : list A :=
     match l, i with
@@ -45,30 +81,44 @@ Section Conc.
     | h :: t, S j => h :: replace_nth t j x
     end.
 
-  (* the scheduler picks goroutine i for the next step *)
-  Definition sched_step (c : cstate) (i : nat) : option cstate :=
-    match nth_error (threads c) i with
-    | None => None
+  (* the scheduler lets goroutine i take its next step (a blocked or finished goroutine does nothing) *)
+  Definition cstep (locked : bool) (c : cstate) (i : nat) : cstate :=
+    match nth_error (thrs c) i with
+    | None => c
     | Some t =>
-        let '(c', t') := tstep c t in
-        Some {| cdb := cdb c'; ccnt := ccnt c'; crad := crad c'; cnode := cnode c'; threads := replace_nth (threads c) i t' |}
+        match cur t with
+        | None =>
+            match todo t with
+            | [] => c
+            | (id, v) :: rest =>
+                if locked && (match lock c with Some _ => true | None => false end) then c      (* Lock() blocks *)
+                else {| sh := sh c; lock := if locked then Some i else lock c;
+                        thrs := replace_nth (thrs c) i {| todo := rest; cur := Some (id, v, MCheck) |};
+                        log := log c ++ [(id, v)] |}
+            end
+        | Some (id, v, MDone _) =>                                                             (* return; deferred Unlock() *)
+            {| sh := sh c; lock := if locked then None else lock c;
+               thrs := replace_nth (thrs c) i {| todo := todo t; cur := None |}; log := log c |}
+        | Some (id, v, pc) =>
+            let '(s', pc') := micro (sh c) id v pc in
+            {| sh := s'; lock := lock c;
+               thrs := replace_nth (thrs c) i {| todo := todo t; cur := Some (id, v, pc') |}; log := log c |}
+        end
     end.
 
-  Fixpoint exec_sched (c : cstate) (sched : list nat) : option cstate :=
-    match sched with
-    | [] => Some c
-    | i :: r => match sched_step c i with Some c' => exec_sched c' r | None => None end
-    end.
+  Definition exec (locked : bool) (c : cstate) (sched : list nat) : cstate := fold_left (cstep locked) sched c.
 
-  Definition all_done (c : cstate) : bool :=
-    forallb (fun t => match t_pc t with TDone | TRefused => true | _ => false end) (threads c).
+  Definition quiescent (c : cstate) : bool :=
+    forallb (fun t => match cur t, todo t with None, [] => true | _, _ => false end) (thrs c).
 
-  (* with a lock around Put each Put is one atomic step of the sequential model: the schedule is the order in
-     which the goroutines obtain the lock *)
-  Variable vhead8 : V -> res N.
-  Fixpoint exec_locked (y : sys (V:=V)) (sched : list (bytes * V)) : res sys :=
-    match sched with
-    | [] => Ok y
-    | (id, v) :: r => bind (step vlen vhead8 dec y (OPut id v)) (fun y' => exec_locked y' r)
+  (* the sequential reference: the state after Put, and after a list of Puts one after another *)
+  Definition put_state (s : st (V:=V)) (p : bytes * V) : st :=
+    match put vlen dec s (fst p) (snd p) with
+    | Ok (s', _, _) => s'
+    | _ => s
     end.
+  Definition seq_puts (s : st (V:=V)) (l : list (bytes * V)) : st := fold_left put_state l s.
+
+  Definition start (s : st (V:=V)) (work : list (list (bytes * V))) : cstate :=
+    {| sh := s; lock := None; thrs := map (fun w => {| todo := w; cur := None |}) work; log := [] |}.
 End Conc.
